@@ -131,10 +131,13 @@ class BX:
             # a named family: runs c^1..c^n_i whose letter weights grow by the golden ratio (3 400 strings, 700 KB): every rare byte gets a
             # codeword longer than the 16-bit decoding chunk (decoding subtrees, their save/load), for the kinds with a statistical coder
             'family=fibruns,depth=16,pd=min,nf=1,kinds=HTFC+HHTFC+HASHHF+HASHUFFDAC+RPHTFC',
+            # text-length sweep: one dictionary per total text size 2..104 bytes (every residue modulo the word/block/sample sizes)
+            'family=totals,depth=' + '+'.join(str(t) for t in range(2, 105)) + ',pd=quick,nf=1',
         ],
         'thorough': [
             # (each scope gets a fair share of the time left; the size-relation families come first, then the subset scopes)
             'family=fibruns,depth=12+13+14+15+16+17+18,pd=quick,nf=1,kinds=HTFC+HHTFC+HASHHF+HASHUFFDAC+RPHTFC',
+            'family=totals,depth=' + '+'.join(str(t) for t in range(2, 521)) + ',pd=full,nf=1',
             'sigma=2,L=2,pal=abc+sgn,stretch=1,pd=minb,nf=1,rep=40,pre=0+125+126+127',
             'sigma=2,L=5,pal=abc+ext+sgn,stretch=1,pd=quick,nf=1,ramp=both',
             'sigma=3,L=3,pal=abc+ext,stretch=1,pd=quick,nf=1,ramp=both',
@@ -183,6 +186,12 @@ class BX:
                 else:
                     s += ',kinds=' + self.KINDS[prop]
             out.append(s)
+        # strings around 65 535 bytes: length fields narrower than 32 bits in an image or a header (metadata oracles only: cheap)
+        LONG = 'sigma=2,L=2,pal=abc,stretch=1,pd=min,nf=1,maxn=%d,pre=65533+65534+65535+65536,kinds=PFC+RPFC+HTFC+HHTFC+RPHTFC+RPDAC+HASHHF+HASHRPF+HASHUFFDAC+HASHRPDAC+HASHRPDACBlocks+FMINDEX'
+        if prop == 'C15':
+            out.append(LONG % (1 if tier == 'quick' else 2))
+        if prop == 'C06' and tier != 'quick':
+            out.insert(3, LONG % 1)
         return out
 
     def replay_one(self, binary, f):
@@ -427,6 +436,8 @@ class SX:
               'treated as atomic, which is sound for data-race-free code -- C11 checks race freedom of the same drivers under TSan on every explored schedule',
               'condition waits have no spurious wake-ups (they could only hide a lost wake-up)',
               'preemption-bounded: all schedules with at most the stated number of preemptions, each bound run to completion',
+              'configurations marked "all interleavings" have no preemption bound: the search is closed by matching happens-before states (per-thread causal '
+              'history hashes + scheduler state); equal states have equal futures for data-race-free code (C11 checks that), 64-bit hash collisions ignored',
               'workers <= 3, tasks/blocks <= 3']
 
     def configs(self, prop, tier):
@@ -440,6 +451,11 @@ class SX:
                 for w in (1, 2, 3):
                     c.append(('D4', w, 0, 0, 2))
                 c.append(('D1', 3, 2, 0, 1)); c.append(('D3', 3, 3, 0, 1)); c.append(('D2', 2, 2, 0, 2))
+                # bound -1 = no preemption bound: ALL interleavings, closed by happens-before state matching (DESIGN 12.1)
+                for d in ['D1', 'D2', 'D3', 'D5']:
+                    for t in (0, 1, 2):
+                        c.append((d, 1, t, 0, -1))
+                c.append(('D1', 1, 3, 0, -1)); c.append(('D3', 1, 3, 0, -1)); c.append(('D4', 1, 0, 0, -1)); c.append(('D4', 2, 0, 0, -1))
             else:
                 for d in ['D1', 'D2', 'D3', 'D5']:
                     for w in (1, 2, 3):
@@ -447,18 +463,29 @@ class SX:
                             c.append((d, w, t, 0, 3))
                 for w in (1, 2, 3):
                     c.append(('D4', w, 0, 0, 4))
+                for d in ['D1', 'D2', 'D3', 'D5']:
+                    for t in (0, 1, 2, 3):
+                        c.append((d, 1, t, 0, -1))
+                c.append(('D4', 1, 0, 0, -1)); c.append(('D4', 2, 0, 0, -1)); c.append(('D4', 3, 0, 0, -1))
+                for d in ['D1', 'D3', 'D2', 'D5']:
+                    c.append((d, 2, 0, 0, -1)); c.append((d, 2, 1, 0, -1))
         elif prop == 'C09':
             if tier == 'quick':
-                c = [('B', 1, 2, 0, 2), ('B', 2, 2, 0, 1), ('B', 2, 2, 4, 1), ('B', 2, 3, 2, 1), ('B', 3, 2, 3, 0), ('B', 3, 3, 1, 0), ('B', 2, 1, 0, 2)]
+                c = [('B', 1, 2, 0, 2), ('B', 2, 2, 0, 1), ('B', 2, 2, 4, 1), ('B', 2, 3, 2, 1), ('B', 3, 2, 3, 0), ('B', 3, 3, 1, 0), ('B', 2, 1, 0, 2),
+                     ('B', 1, 2, 0, -1)]    # all interleavings of producer + one worker, two blocks (closed by happens-before state matching)
             else:
                 for v in range(9):
                     for w in (1, 2, 3):
                         for t in (1, 2, 3):
                             c.append(('B', w, t, v, 3))
+                for v in (0, 3, 7):
+                    c.append(('B', 1, 2, v, -1))
+                c.append(('B', 1, 3, 1, -1)); c.append(('B', 2, 2, 0, -1))
         elif prop == 'C11':
             if tier == 'quick':
                 c = [('D1', 2, 2, 0, 1), ('D2', 2, 2, 0, 1), ('D3', 2, 2, 0, 1), ('D5', 2, 2, 0, 1), ('D4', 2, 0, 0, 1), ('B', 2, 2, 0, 1), ('B', 2, 2, 3, 1), ('B', 2, 2, 7, 1),
-                     ('B', 2, 3, 1, 0), ('B', 2, 3, 4, 0), ('B', 3, 3, 5, 0), ('D1', 3, 2, 0, 0)]
+                     ('B', 2, 3, 1, 0), ('B', 2, 3, 4, 0), ('B', 3, 3, 5, 0), ('D1', 3, 2, 0, 0),
+                     ('D1', 1, 2, 0, -1), ('D2', 1, 1, 0, -1), ('D5', 1, 2, 0, -1), ('D3', 1, 2, 0, -1)]   # all interleavings (producer vs one worker) under TSan
             else:
                 for d in ['D1', 'D2', 'D3', 'D5']:
                     for w in (2, 3):
@@ -470,10 +497,10 @@ class SX:
                         for t in (2, 3):
                             c.append(('B', w, t, v, 2))
         # smallest first
-        c.sort(key=lambda x: (x[1] * 3 + x[2] * 4 + x[4] * 6, x[0]))
+        c.sort(key=lambda x: (x[1] * 3 + x[2] * 4 + (x[4] if x[4] >= 0 else (3 if x[1] == 1 else 40)) * 6, x[0]))
         return c
 
-    DEADLINE = {'quick': 200, 'thorough': 2700}
+    DEADLINE = {'quick': 300, 'thorough': 2700}
 
     def run_configs(self, binary, cfgs, deadline, t0):
         """run configurations on NPROC cores, smallest first; returns list of result dicts"""
@@ -491,7 +518,7 @@ class SX:
                     continue
                 d, w, t, v, b = cfg
                 out = os.path.join(SCRATCH, 'sx.%d.%d.json' % (os.getpid(), idx)); idx += 1
-                cmd = [binary, '--driver', d, '--workers', str(w), '--tasks', str(t), '--variant', str(v), '--bound', str(b), '--deadline', str(left), '--out', out]
+                cmd = [binary, '--driver', d, '--workers', str(w), '--tasks', str(t), '--variant', str(v)] + (['--bound', str(b)] if b >= 0 else ['--hb']) + ['--deadline', str(left), '--out', out]
                 running.append((subprocess.Popen(cmd, stdout=subprocess.DEVNULL, stderr=subprocess.PIPE), out, cfg))
             still = []
             for p, out, cfg in running:
@@ -539,8 +566,10 @@ class SX:
             # data dimension: every input set x every cut x thread counts under the OS schedule (BX oracle C09)
             bxe = BX()
             bxb = vlib.build_tool('asan', 'bx')
-            scopes = ['sigma=2,L=2,pal=abc,stretch=1,pd=full,nf=1,kinds=HASHRPDACBlocks'] if tier == 'quick' else \
-                     ['sigma=2,L=2,pal=abc+sgn,stretch=1+130,pd=full,nf=1,kinds=HASHRPDACBlocks', 'sigma=3,L=2,pal=abc,stretch=1,pd=full,nf=1,kinds=HASHRPDACBlocks,maxn=5']
+            # (the ramp gives blocks of every size, hence DAC/bitmap lengths on word boundaries; the sgn palette gives 8-bit symbols)
+            scopes = ['sigma=2,L=2,pal=abc+sgn,stretch=1,pd=full,nf=1,kinds=HASHRPDACBlocks', 'sigma=2,L=5,pal=abc,stretch=1,pd=quick,nf=1,ramp=both,kinds=HASHRPDACBlocks'] if tier == 'quick' else \
+                     ['sigma=2,L=2,pal=abc+sgn+ext,stretch=1+130,pd=full,nf=1,kinds=HASHRPDACBlocks', 'sigma=2,L=5,pal=abc+sgn,stretch=1,pd=full,nf=1,ramp=both,kinds=HASHRPDACBlocks',
+                      'sigma=3,L=2,pal=abc,stretch=1,pd=full,nf=1,kinds=HASHRPDACBlocks,maxn=5']
             bx_part = {'scopes': [], 'failures': []}
             for sc in scopes:
                 left = deadline * 0.4 - (time.time() - t0)
@@ -559,6 +588,25 @@ class SX:
             # every configuration is first run with the default schedule and all schedules without preemption (cheap), so that a
             # deep early configuration cannot keep a later one from being exercised at all before the deadline
             cfgs = sorted(set((d, w, t, v, 0) for (d, w, t, v, b) in cfgs if b > 0)) + cfgs
+            cfgs = [x for x in cfgs if x[4] < 0 and x[1] == 1] + [x for x in cfgs if not (x[4] < 0 and x[1] == 1)]   # the closed single-worker searches first
+        if prop == 'C10':
+            # validation of the state matching itself: for configurations small enough to enumerate EVERY schedule statelessly (preemption
+            # bound above the maximum possible), the set of happens-before states visited must equal the set the state-matching search visits
+            cov['state_matching_cross_check'] = []
+            for (d, w, t) in ([('D1', 1, 0), ('D1', 1, 1), ('D4', 1, 0)] if tier == 'quick' else [('D1', 1, 0), ('D1', 1, 1), ('D3', 1, 1), ('D2', 1, 0), ('D4', 1, 0), ('D2', 1, 1)]):
+                if deadline - (time.time() - t0) < 60:
+                    break
+                fa = os.path.join(SCRATCH, 'hbA.%d' % os.getpid()); fb = os.path.join(SCRATCH, 'hbB.%d' % os.getpid())
+                base = [binary, '--driver', d, '--workers', str(w), '--tasks', str(t), '--deadline', '120']
+                ra = json.loads(subprocess.run(base + ['--bound', '99', '--dump-hb', fa], stdout=subprocess.PIPE, text=True).stdout)
+                rb = json.loads(subprocess.run(base + ['--hb', '--dump-hb', fb], stdout=subprocess.PIPE, text=True).stdout)
+                same = open(fa).read() == open(fb).read()
+                os.unlink(fa); os.unlink(fb)
+                cov['state_matching_cross_check'].append({'driver': d, 'workers': w, 'tasks': t, 'all_schedules_stateless': ra['executions'], 'max_preemptions_in_any_schedule': max([i for i, n in enumerate(ra['per_bound']) if n] or [0]),
+                                                          'stateless_complete': ra['complete'], 'executions_with_state_matching': rb['executions'], 'happens_before_states': rb['hb_states'], 'same_state_set': same})
+                if ra['complete'] and rb['complete'] and not same:
+                    log('HARNESS ERROR: state-matching search and full stateless enumeration of %s W=%d T=%d visit different happens-before state sets' % (d, w, t))
+                    raise SystemExit(2)
         results = self.run_configs(binary, cfgs, deadline, t0)
         if prop == 'C09':
             # SX treats the code between two synchronisation operations as atomic, which is only sound if the block builder is
@@ -592,9 +640,16 @@ class SX:
             for k, v in r['outcomes'].items():
                 name = OUTCOME.get(int(k), k)
                 cov['distinct_outcomes'][name] = cov['distinct_outcomes'].get(name, 0) + v
-            cov['configurations'].append({'driver': cfg[0], 'workers': cfg[1], 'tasks_or_blocks': cfg[2], 'variant': cfg[3], 'bound_requested': cfg[4],
-                                          'preemption_bound_completed': r['completed_bound'], 'schedules': r['executions'], 'per_bound': r['per_bound'],
-                                          'states': r['states'], 'max_choice_points': r['max_choice_points'], 'wall_s': r['wall_s']})
+            if r.get('hb'):
+                cov['configurations'].append({'driver': cfg[0], 'workers': cfg[1], 'tasks_or_blocks': cfg[2], 'variant': cfg[3], 'bound_requested': 'none (all interleavings)',
+                                              'mode': 'stateful: happens-before state matching, no preemption bound', 'closed': r['complete'], 'hb_states': r['hb_states'],
+                                              'alternatives_cut_by_state_matching': r['hb_pruned'], 'schedules': r['executions'], 'max_choice_points': r['max_choice_points'], 'wall_s': r['wall_s']})
+                cov['unbounded_closed'] = cov.get('unbounded_closed', 0) + (1 if r['complete'] else 0)
+                cov['states'] += r['hb_states'] - r['states']    # count the happens-before states for these configurations
+            else:
+                cov['configurations'].append({'driver': cfg[0], 'workers': cfg[1], 'tasks_or_blocks': cfg[2], 'variant': cfg[3], 'bound_requested': cfg[4],
+                                              'preemption_bound_completed': r['completed_bound'], 'schedules': r['executions'], 'per_bound': r['per_bound'],
+                                              'states': r['states'], 'max_choice_points': r['max_choice_points'], 'wall_s': r['wall_s']})
             if len(cov['samples']) < 6:
                 cov['samples'] += [dict(s, driver=cfg[0], workers=cfg[1], tasks=cfg[2]) for s in r['samples'][:1]]
             for v in r['violations']:
@@ -635,7 +690,8 @@ class SX:
             nviol += res.confirmed
             cov['data_dimension'] = bx_part['scopes']
         cov['rule'] = ('every thread interleaving at pthread synchronisation points of the real code (unmodified parallel/Worker.hpp and block constructor, pthread_* interposed), '
-                       'iterative preemption bounding, each execution in a forked child; states = distinct abstract scheduler states at choice points, transitions = choice points executed, '
+                       'iterative preemption bounding, and for the smallest configurations all interleavings with happens-before state matching; each execution in a forked child; '
+                       'states = distinct abstract scheduler states (happens-before states in the unbounded mode) at choice points, transitions = choice points executed, '
                        'traces_validated = complete executions of the implementation')
         if not cov['samples']:
             cov['samples'] = [{'note': 'nothing executed'}]
